@@ -183,10 +183,10 @@ def part_format(ctx, d, dist):
 
 
 # ---------------------------------------------------------------- part (b): the matrix
-def run_main(argv, d, cores, buffer_size=None):
+def run_main(argv, d, cores, buffer_size=None, start_method=None):
     """in-process for one core, subprocess for several"""
     if cores > 1:
-        res = R.run_cli(argv, d, cores, buffer_size=buffer_size, trace=False)
+        res = R.run_cli(argv, d, cores, buffer_size=buffer_size, trace=False, start_method=start_method)
         return res["exit"], res["stderr"][-300:]
     import logging
     import cutadapt.cli as cli
@@ -269,10 +269,22 @@ def run_variant(case, d, v):
                 a = a[: -len(ext)] + "fasta"   # redirect files as FASTA next to a FASTQ main output (and the other way round above)
             a = a + oc
         new.append(a)
-    code, err = run_main(new, d, v.get("cores", 1), v.get("buffer_size"))
+    stdout_data = None
+    if v.get("stdout_fasta"):
+        # the trimmed reads go to standard output (no -o) and --fasta asks for FASTA there -- with any number of cores
+        k = new.index("-o")
+        new = ["--fasta"] + new[:k] + new[k + 2:]
+        res_ = R.run_cli(new, d, v.get("cores", 1), buffer_size=v.get("buffer_size"), trace=False, start_method=("spawn" if v.get("spawn") and v.get("cores", 1) > 1 else None))
+        code, err = (res_["exit"] if not res_["timed_out"] else -9), res_["stderr"][-300:]
+        stdout_data = res_["stdout"].encode("ascii", errors="replace")
+    else:
+        code, err = run_main(new, d, v.get("cores", 1), v.get("buffer_size"), start_method=("spawn" if v.get("spawn") else None))
     out = {"exit": code, "err": err, "files": {}, "argv": [x.replace(d, "$D") for x in new]}
     if code != 0:
         return out
+    if stdout_data is not None:
+        fmt, rs = parse_records(stdout_data)
+        out["files"]["out"] = {"name": "out.fasta", "fmt": fmt, "records": rs}
     for f in sorted(os.listdir(d)):
         if f.startswith("in.") or f.startswith("side.") or f in ("report.json", "info.tsv", "trace.log") or os.path.isdir(os.path.join(d, f)):
             continue
@@ -334,8 +346,14 @@ def rand_variant(rng, case, k):
         v["mixed_out"] = True
     if rng.random() < 0.2 and not b.strip_suffix and b.rename is None:
         v["gt_names"] = True
+    if not case["paired"] and not b.demux and not b.fasta and rng.random() < 0.12:
+        v["stdout_fasta"] = True
+        v["cores"] = rng.choice([1, 2, 3])
+        for kk in ("fasta_out", "mixed_out", "fasta_in"):
+            v.pop(kk, None)
     if k == 0:
         v["cores"] = 2
+        v["spawn"] = rng.random() < 0.35   # workers get the pipeline through pickle
         if rng.random() < 0.5:
             v["buffer_size"] = rng.choice([300, 512, 1000])
         if case["paired"] and not b.fasta and quality_free(case) and rng.random() < 0.5 and not b.strip_suffix:
@@ -377,7 +395,7 @@ def part_matrix(ctx, d, dist):
             ctx.count(key, any(len(x["records"]) for x in ref["files"].values()))
             for kk in ("in_comp", "out_comp"):
                 dist["%s=%s" % (kk, v.get(kk) or "plain")] = dist.get("%s=%s" % (kk, v.get(kk) or "plain"), 0) + 1
-            for kk in ("fasta_in", "fasta_out", "inter_in", "inter_out", "redirect_two", "mixed_out", "gt_names", "buffer_size"):
+            for kk in ("fasta_in", "fasta_out", "inter_in", "inter_out", "redirect_two", "mixed_out", "gt_names", "buffer_size", "spawn", "stdout_fasta"):
                 if v.get(kk):
                     dist[kk] = dist.get(kk, 0) + 1
             dist["cores=%d" % v["cores"]] = dist.get("cores=%d" % v["cores"], 0) + 1
@@ -391,7 +409,7 @@ def part_matrix(ctx, d, dist):
                               {"what": "exit %r: %s" % (res["exit"], res["err"]), **desc}, True)
                 continue
             probs = []
-            qual_cmp = has_qual and not v.get("fasta_in") and not v.get("fasta_out") and not v.get("mixed_out")
+            qual_cmp = has_qual and not v.get("fasta_in") and not v.get("fasta_out") and not v.get("mixed_out") and not v.get("stdout_fasta")
             a = canon(ref_v["files"], paired, qual_cmp)
             bb = canon(res["files"], paired, qual_cmp)
             if a != bb:
